@@ -104,12 +104,12 @@ def rname(r, prefix, k):
     return '%s%d%s.par' % (prefix, k, pad)
 
 
-def gen_tables(r, external=False):
-    ntab = r.randint(1, 3)
+def gen_tables(r, external=False, deep=False):
+    ntab = r.randint(1, 3) if not deep else r.randint(1, 5)
     tables = []
     enum_used = False
     for t in range(ntab):
-        ncol = r.randint(1, 6)
+        ncol = r.randint(1, 6) if not deep else r.randint(1, 9)
         cols = []
         for c in range(ncol):
             kind = r.choice(['i2', 'i4', 'i8', 'f4', 'f8', 'S', 'S', 'E'])
@@ -156,7 +156,7 @@ def generate(seed, tier='quick'):
     start = r.choice(['writer', 'writer', 'writer', 'normal', 'raw', 'external-normal', 'external-raw'])
     if r.random() < 0.1:
         clock['start'] = r.choice([1798761599.0, 1830297599.5, 951868799.0, 4102444799.0, 253402300700.0])
-    tables = gen_tables(r, external=start.startswith('external'))
+    tables = gen_tables(r, external=start.startswith('external'), deep=(tier == 'thorough'))
     hdr = [['k%dw' % i, rstr(r, 6, header=True)] for i in range(r.randint(0, 4))]
     if r.random() < 0.05:
         hdr.append([r.choice(['enum', 'struct', 'c00q', 'TB0', 'filename']), rstr(r, 6, header=True)])
@@ -167,9 +167,9 @@ def generate(seed, tier='quick'):
     weights = {op: r.choice([0, 1, 1, 2, 4]) for op in OPS}
     weights['append_rows'] = max(weights['append_rows'], 1)
     nsteps = r.randint(3, 14)
-    long_history = r.random() < 0.08
+    long_history = r.random() < (0.08 if tier != 'thorough' else 0.2)
     if long_history:
-        nsteps = r.randint(20, 40)
+        nsteps = r.randint(20, 40) if tier != 'thorough' else r.randint(20, 80)
         weights['append_rows'] = 8
     steps = []
     nf = 1
@@ -259,5 +259,5 @@ def generate(seed, tier='quick'):
             nx += 1
     return {'property': 'C03', 'seed': seed, 'clock': clock, 'tables': tables, 'hdr': hdr,
             'start': start, 'comments': comments0, 'style': style, 'eol': eol,
-            'final_newline': final_newline, 'steps': steps[:48 if long_history else 16],
+            'final_newline': final_newline, 'steps': steps[:(96 if tier == 'thorough' else 48) if long_history else 16],
             'weights': weights}
